@@ -281,7 +281,9 @@ def output_header(q):
         ha, hb = [], []
     if hb is None:
         hb = []
-    out = []
+    # DISTINCT COUNT prefixes every record with its multiplicity: that column occupies output position 1 (its own name is not
+    # documented -> wildcard), so colK numbering of the following columns counts it (K = position in the output record).
+    out = [None] if q.distinct == 'count' else []
     for it in q.items:
         if it.kind == 'star':
             out += list(ha) + list(hb)
@@ -299,10 +301,6 @@ def output_header(q):
             out.append(hb[it.name[1]])
         else:
             out.append('col%d' % (len(out) + 1))
-    if q.distinct == 'count':
-        # DISTINCT COUNT prefixes every record with its multiplicity; the header must have as many names as the records
-        # have fields (C07).  The count column carries no documented name: only the width and the other names are compared.
-        out = [None] + out
     return out
 
 
